@@ -7,13 +7,22 @@
 // on entry of the r-th outermost region, forks one child per schedule of that region with <= k deviations from the default
 // (deviation-bounded DFS, same enumeration as vx::explore); the child finishes the region under its schedule and continues the
 // history with the default schedule. Oracle on every execution: the observation after the step (binary write() bytes, structure
-// through public getters, numeric outputs) equals the observation of the *serial* build (same harness, variant asan, no -fopenmp):
-// bitwise identical => the execution has merged with the spine (identical state => identical future) and stops at the end of the
-// step (tail "step") or of the history (tail "history"); otherwise structure (integers of the ASCII write, getters) must be identical
-// and floating values equal to 1e-13 relative to the magnitude, and the child continues to the end of the history.
-// AddressSanitizer/UBSan reports, deadlocks, livelocks (scheduler) and time-outs are violations.
+// through public getters, numeric outputs) equals the observation of the *serial* build (same harness, variant asan, no -fopenmp,
+// run as a sub-process with --emit-ref): bitwise identical => the execution has merged with the spine (identical state => identical
+// future) and stops at the end of the step (--tail history: at the end of the history); otherwise structure (integers and words of the
+// ASCII write, getters) must be identical and floating values equal to 1e-13 relative to the magnitude, and the child continues to the end
+// of the history. AddressSanitizer/UBSan reports, deadlocks, livelocks (scheduler) and time-outs are violations.
+// Attribution: a difference seen by an execution child is reported under the function of the explored region, unless the spine itself
+// (default schedule, same team size) differs from the serial build at that step - then one "default-schedule" violation is reported
+// and the exploration of that history stops (everything later differs as a consequence). Failing schedules are re-executed and must
+// reproduce identical observations before they are reported; --replay re-runs exactly one (history, team, region, choice vector).
+// Work units: (history, team size, range of regions, bound); each worker process is pinned to one CPU (only one thread of its
+// process tree runs at a time). A pre-pass runs every history once (team of 2) to count regions and to measure which of the outlined
+// OpenMP functions of the executable (nm: *._omp_fn.*) are executed at all ("region coverage" note).
 // Variant ompt (-DVS_NO_INTERPOSE, ThreadSanitizer): the same histories free-running on the shim's real pthread team (auxiliary pass).
 // Variant asan (no -fopenmp): only --emit-ref (reference observations of the serial build).
+// Debugging aids: --list, --only <substring>, --cfg/--steps (one custom history), --profile (per-step region counts and times),
+// --bound k, --teams a,b, --coarse, --regions-per-unit n, --no-pin.
 #include "gomp_shim.hpp"
 #include "../opseq/ops.hpp"
 #include "TasmanianOptimization.hpp"
@@ -292,7 +301,7 @@ struct Spine {
     // replay
     bool replay = false; long replay_region = -1; std::vector<int> replay_prefix;
     // measurements of the spine
-    long execs = 0, points = 0, steps = 0, regions_explored = 0, regions_seen = 0, skipped = 0; std::set<std::string> classes; std::map<std::string, RegionAgg> agg; int nviol = 0; bool cut = false; int cur_step = 0;
+    long execs = 0, points = 0, steps = 0, regions_explored = 0, regions_seen = 0, skipped = 0; std::set<uint64_t> classes; std::string class_file; std::map<std::string, RegionAgg> agg; int nviol = 0; bool cut = false; int cur_step = 0;
     std::map<std::string,int> sanit; long spine_regions = 0;
     struct Pending { std::string sig, cs, detail; int step; }; std::vector<Pending> pending; bool tainted = false; long not_attributed = 0, skipped_tainted = 0;
 };
@@ -352,7 +361,7 @@ static void record_exec(Spine &s, long r, const std::string &fn, const ExecRes &
         viol("C13:" + kind + ":" + s.h->fam() + ":" + fn, x.status + " in region " + std::to_string(r) + " (" + fn + ", step " + std::to_string(s.cur_step) + " " + step_name(*s.h, s.cur_step) + ") of history " + s.h->name + ", team of " + std::to_string(s.T) + ", schedule " + vf::jarr(choices) + " " + x.out.err.substr(0, 1200));
         return;
     }
-    a.traces.insert(x.tracedig); s.classes.insert(std::to_string(r) + ":" + x.tracedig);
+    a.traces.insert(x.tracedig); s.classes.insert(vf::fnv((s.h->name + "|" + std::to_string(s.T) + "|" + std::to_string(r) + "|" + x.tracedig).data(), (s.h->name + "|" + std::to_string(s.T) + "|" + std::to_string(r) + "|" + x.tracedig).size()));
     if (root) return; // the default schedule of the region is the spine's own execution (verdict given there)
     a.verdicts[x.verdict]++;
     if (x.verdict == "struct" || x.verdict == "numeric"){
@@ -418,7 +427,8 @@ static void run_spine(Spine &s){
         for(auto &a : s.agg){ std::string vd; for(auto &v : a.second.verdicts){ if (!vd.empty()) vd += ","; vd += v.first + ":" + std::to_string(v.second); }
             vf::emit(vf::J().s("t","outcome").s("key", s.h->name + " T=" + std::to_string(s.T) + " | " + a.first + " | " + std::to_string(a.second.traces.size()) + " distinct chunk/critical/thread-order traces | verdicts " + (vd.empty() ? "-" : vd)).i("n", a.second.execs)); }
         bool complete = !s.cut && !vf::past_deadline();
-        vf::emit(vf::J().s("t","unit").s("unit", s.unit).i("states", s.points).i("transitions", s.steps).i("execs", s.execs + 1).i("evals", s.execs + 1).i("distinct", (long long) s.classes.size())
+        if (!s.class_file.empty() && !s.classes.empty()){ FILE *cf = fopen(s.class_file.c_str(), "wb"); if (cf){ std::vector<uint64_t> v(s.classes.begin(), s.classes.end()); fwrite(v.data(), sizeof(uint64_t), v.size(), cf); fclose(cf); } }
+        vf::emit(vf::J().s("t","unit").s("unit", s.unit).i("states", s.points).i("transitions", s.steps).i("execs", s.execs + 1).i("evals", s.execs + 1).i("distinct", 0).i("trace_classes", (long long) s.classes.size())
                  .i("regions_in_history", s.spine_regions).i("regions_explored", s.regions_explored).i("regions_in_range", s.regions_seen).i("skipped_after_crashes", s.skipped).i("regions_skipped_after_default_schedule_violation", s.skipped_tainted).i("differences_not_attributed", s.not_attributed).i("nested_regions", gs::n_nested).i("criticals", gs::n_crit).i("dynamic_loops", gs::n_dynloops).i("chunks", gs::n_chunks).i("barriers", gs::n_barriers).i("violations", s.nviol).n("wall_s", std::round(1e3 * (vf::now() - t_start)) / 1e3).b("complete", complete));
         vf::wr(fd, "SPINE-OK\n"); _exit(0);
     }
@@ -521,16 +531,22 @@ int main(int argc, char **argv){
     int kA = A.has("--bound") ? bound : 1; bool phaseB = (tier != "quick") && !A.has("--bound"); std::vector<int> teamsB = {2, 3}; if (A.has("--teams2")){ auto v = vf::jints(A.get("--teams2")); teamsB.assign(v.begin(), v.end()); }
     bool fineA = !A.has("--coarse");
     for(size_t hi=0; hi<H.size(); hi++){ W.push_back({hi, 1, 0, 0, 0, true}); for(int T : teams){ long R = std::max<long>(nreg[hi], 1); for(long r = 0; r < R; r += per) W.push_back({hi, T, r, (r + per >= R) ? LONG_MAX : r + per, kA, fineA}); } }
-    std::stable_sort(W.begin(), W.end(), [](const WU &a, const WU &b){ return a.T > b.T; });   // larger teams first (the most expensive units)
+    { auto rank = [](int T)->int{ return T == 3 ? 0 : T == 2 ? 1 : T == 1 ? 2 : T; }; std::stable_sort(W.begin(), W.end(), [&](const WU &a, const WU &b){ return rank(a.T) < rank(b.T); }); }   // teams of 3, 2, (1), then 4: if the deadline cuts the run, the smaller teams are complete
     size_t nA = W.size(); long perB = std::max<long>(per / 4, 5);
     if (phaseB) for(int T : std::vector<int>(teamsB.rbegin(), teamsB.rend())) for(size_t hi=0; hi<H.size(); hi++){ if (!coreB(H[hi])) continue; long R = std::max<long>(nreg[hi], 1); for(long r = 0; r < R; r += perB) W.push_back({hi, T, r, (r + perB >= R) ? LONG_MAX : r + perB, 2, false}); }
+    std::string ctag = tmp + "/c13cls." + std::to_string(getpid()) + ".";
     size_t done = vf::parallel_units(W.size(), workers, [&](size_t ui){
         pin_worker(); const WU &u = W[ui]; const Hist &h = H[u.h]; static std::map<size_t, std::vector<Obs>> cache; std::string err;
         if (!cache.count(u.h)){ std::vector<Obs> ref; if (!get_ref(h, ref, err)){ vf::emit(vf::J().s("t","error").s("what", err)); return; } cache[u.h] = ref; }
         Spine s; s.h = &h; s.ref = &cache[u.h]; s.T = u.T; s.bound = u.bound; s.fine = u.fine; s.tail_history = tail_history; s.r0 = u.r0; s.r1 = u.r1; s.sym = &sym;
+        s.class_file = ctag + std::to_string(ui);
         s.unit = h.name + ":T" + std::to_string(u.T) + (u.T > 1 ? ":k" + std::to_string(u.bound) + (u.fine ? "" : "c") + ":regions[" + std::to_string(u.r0) + "," + (u.r1 == LONG_MAX ? std::string("end") : std::to_string(u.r1)) + ")" : "");
         run_spine(s);
     });
+    { // distinct (history, team, region, trace) classes, de-duplicated over all units (the two phases of the thorough tier revisit the same regions)
+      std::vector<uint64_t> all; for(size_t ui=0; ui<W.size(); ui++){ std::string f = ctag + std::to_string(ui); std::string b = vf::slurp(f); unlink(f.c_str()); size_t n = b.size() / sizeof(uint64_t); size_t o = all.size(); all.resize(o + n); if (n) memcpy(&all[o], b.data(), n * sizeof(uint64_t)); }
+      std::sort(all.begin(), all.end()); all.erase(std::unique(all.begin(), all.end()), all.end());
+      vf::emit(vf::J().s("t","unit").s("unit","distinct (history, team size, region, thread-order/chunk-assignment/critical-order trace) classes over all units").i("states", 0).i("transitions", 0).i("execs", 0).i("evals", 0).i("distinct", (long long) all.size()).b("complete", true)); }
     std::string bound_text = std::to_string(H.size()) + " scripted histories (5 grid families, 2-D and 3-D, PSO); every history with a team of 1 and, for team sizes " + vf::jarr(teams) + ", per outermost parallel region all schedules with <= " + std::to_string(kA) + " deviation(s) from the default schedule (choice points: region start, critical entry" + (fineA ? "/exit" : "") + ", dynamic chunk acquisition" + std::string(fineA ? " and chunk start" : "") + ", barrier release, " + (fineA ? "loop-end-nowait, " : "") + "thread end/join)";
     if (phaseB){ long nb = 0; for(auto &h : H) if (coreB(h)) nb++; bound_text += "; in addition the " + std::to_string(nb) + " core histories (the 2-D and PSO histories of the quick tier and the 3-D localp history) with team sizes " + vf::jarr(teamsB) + " and <= 2 deviations per region (choice points before every visible operation: region start, critical entry, chunk acquisition, barrier release, thread end/join)"; }
     bound_text += std::string("; an execution merges with the default run at the end of the first step whose observation is bitwise identical to the serial build") + (tail_history ? " (disabled: every execution runs to the end of the history)" : ""); (void) nA;
